@@ -15,6 +15,7 @@ LET = {
     'O': {'fn': 'out_a', 'a': ['x1'], 'ret': 'vtup'},
     'G': {'fn': 'out_hdl', 'a': ['x1'], 'ret': 'v1'},
     'S': {'fn': 'in_static', 'a': ['x2'], 'ret': 'vobj'},
+    'K': {'fn': 'out_a', 'a': ['x1'], 'k': {'z': 'xl', 'y': 'xo1'}, 'ret': 'vdct'},
     'N': {'fn': 'in_b', 'a': ['x2'], 'ret': 'vs', 'pre': [{'fn': 'in_a', 'a': ['x1'], 'ret': 'vlst'}, {'fn': 'out_a', 'a': ['x1'], 'ret': 'v0'}]},
 }
 STEP_FAULTS = ['key', 'handler', 'unser']
@@ -24,11 +25,12 @@ GAP = ['gap-discard', 'gap-force', 'gap-raise', 'gap-intr']
 ENDS = ['ret', 'raise:E1', 'raise:Unser', 'intr']
 GLOBS = {
     'none': {}, 'ext-dict': {'ext': 'dict'}, 'ext-raise': {'ext': 'raise'}, 'ext-none': {'ext': 'none'}, 'ext-int': {'ext': 'int'},
-    'ext-str': {'ext': 'str'}, 'ext-list': {'ext': 'list'}, 'ext-partial': {'ext': 'partial'},
+    'ext-str': {'ext': 'str'}, 'ext-list': {'ext': 'list'}, 'ext-partial': {'ext': 'partial'}, 'ext-discard': {'ext': 'discard'}, 'ext-force': {'ext': 'force', 'params': {'rate': 0.0}},
     'save-raises': {'save_raises': True}, 'rate0': {'params': {'rate': 0.0}}, 'rate.5-keep': {'params': {'rate': 0.5}, 'draw': 0.25},
     'rate.5-drop': {'params': {'rate': 0.5}, 'draw': 0.75}, 'copy-on': {'params': {'copy': True}}, 'cls': {'kind': 'cls'},
     'cls-ext': {'kind': 'cls', 'ext': 'dict'}, 'ignore-rate0': {'params': {'rate': 0.0, 'ignore': True}}, 'skipped': {'params': {'skipped': True}},
     'disabled': {'enabled': False},
+    'sub': {'sub': True, 'ext': 'dict'}, 'sub-params': {'sub': True, 'params': {'rate': 0.0}}, 'sub-cls': {'sub': True, 'kind': 'cls', 'params': {'skipped': True}},
 }
 CLEAN2 = {'steps': [{'fn': 'in_a', 'a': ['x1'], 'ret': 'vlst'}, {'fn': 'out_a', 'a': ['x1'], 'ret': 'v1'}, {'fn': 'out_a', 'a': ['x2'], 'ret': 'v0'}]}
 
@@ -42,14 +44,14 @@ def applicable(letter, kind):
     return True
 
 
-def local_mods(base):
+def local_mods(base, extra_gap=()):
     mods = []
     for i, l in enumerate(base):
         for k in STEP_FAULTS + STEP_BODY + STEP_PRE:
             if applicable(l, k):
                 mods.append([k, i])
     for g in range(len(base) + 1):
-        for k in GAP:
+        for k in list(GAP) + list(extra_gap):
             mods.append([k, g])
     return mods
 
@@ -61,7 +63,7 @@ def compatible(m1, m2):
             return False
         if a in STEP_BODY and b in STEP_BODY:
             return False
-        if a in GAP and b in GAP:
+        if a.startswith('gap-') and b.startswith('gap-'):
             return a != b
     return True
 
@@ -86,7 +88,7 @@ def build(case):
             steps[pos].setdefault('pre', []).insert(0, {'do': 'force'})
         else:
             gaps.setdefault(pos, []).append({'gap-discard': {'do': 'discard'}, 'gap-force': {'do': 'force'}, 'gap-raise': {'do': 'raise', 'exc': 'E2'},
-                                             'gap-intr': {'do': 'intr'}}[kind])
+                                             'gap-intr': {'do': 'intr'}, 'gap-disable': {'do': 'disable'}}[kind])
     out = []
     for i in range(len(steps) + 1):
         out += [{'do': 'tick', 'd': 1.5}] if i == 0 else []
@@ -96,13 +98,13 @@ def build(case):
             out.append({'do': 'tick', 'd': 0.25 * (i + 1)})
     g = GLOBS[case['glob']]
     prog = {'steps': out, 'end': case['end']}
-    for k in ('ext', 'params', 'kind'):
+    for k in ('ext', 'params', 'kind', 'sub'):
         if k in g:
             prog[k] = g[k]
     return prog, g
 
 
-def gen(tier, letters='AHOGSN', pair_ends=('ret', 'raise:E1')):
+def gen(tier, letters='AHOGSN', pair_ends=('ret', 'raise:E1'), extra_gap=()):
     maxlen = 2 if tier == 'quick' else 3
     letters = list(letters)
     for n in range(1, maxlen + 1):
@@ -111,7 +113,7 @@ def gen(tier, letters='AHOGSN', pair_ends=('ret', 'raise:E1')):
             if tier == 'thorough' and n == 3 and len(set(base)) == 3 and base != sorted(base):
                 # three different letters: order of independent letters only permutes positions; keep sorted + all with repeats
                 continue
-            lm = local_mods(base)
+            lm = local_mods(base, extra_gap)
             for m in [[]] + [[x] for x in lm]:
                 for end in ENDS:
                     for glob in GLOBS:
@@ -144,7 +146,7 @@ def execute(case, second=True, cas='mem'):
     if second:
         b.env.spy.save_raises = False
         b.R2 = P.ref(CLEAN2, enabled=g.get('enabled', True))
-        if g.get('params'):
+        if g.get('params') and not g.get('sub'):
             b.R2 = P.ref(dict(CLEAN2, params=g['params']), enabled=g.get('enabled', True), draw=0.5)
         b.r2 = P.record(dict(CLEAN2), env=b.env)
     return b
